@@ -1,6 +1,7 @@
 """C03 — a field error nulls only the nearest nullable position and is reported once."""
 import common as c
 from checks.C01 import CASE_T, CLASSES
+from checks import C02, C27
 
 SPEC = {
     "pid": "C03",
@@ -12,6 +13,21 @@ SPEC = {
     "streams": [
         {"kind": "CASE", "type": CASE_T,
          "eval": "fun c => let '(s, w, d, op, v, r) := c in check_c03 s w d op v 300 r", "per_shard": 25},
+        # "each subscription event": every response of the real execute_stream must hold exactly the data and the
+        # errors of its own event (SubEvents.v; events whose root field fails as a whole after a caught error included)
+        {"kind": "SUB_CASE", "requires": "From AG Require Import SubEvents.", "def_type": "fixture",
+         "type": C27.SPEC["streams"][0]["type"], "eval": C27.SPEC["streams"][0]["eval"], "per_shard": 150,
+         "classes": {1: "shared-error-list-across-overlapping-events"},
+         "what_violation": "a subscription event's response does not carry exactly the errors raised while resolving that event"},
+        # "dynamic schemas": fault-injected worlds on schemas built with the dynamic API (DynExecCheck.v)
+        {"kind": "DYN_CASE", "requires": "From AG Require Import DynExecCheck.", "def_type": "schema",
+         "type": C02.CASE_T, "eval": C02.SPEC["streams"][0]["eval"], "per_shard": 20,
+         "classes": C02.CLASSES,
+         "what_violation": "a failing field of a dynamic schema does not null exactly the nearest nullable position (response differs from the specification's execution algorithm)"},
+    ],
+    "extra_bins": [
+        {"bin": "c27", "kind_prefix": "SUB_", "n_factor": 1.5},   # subscription events (harness and machine of check C27)
+        {"bin": "c02", "kind_prefix": "DYN_", "n_factor": 0.4},   # dynamic schemas (harness and model of check C02)
     ],
     "classes": CLASSES,
     "n_quick": 400, "n_thorough": 8000,
@@ -21,7 +37,9 @@ SPEC = {
              "null at a non-null position), so single faults, pairs and multiple faults occur at every nullability/list wrapping; queries and mutations; "
              "distinct by case text; non-trivial = data non-null or errors"),
     "trusted": ["harness world/registry dump and document printer", "differential sampling: Exec.v impl model = real executor (data, error paths, resolver trace)"],
-    "assumptions": ["static (derive-built) schema family only; dynamic schemas and subscription events are not covered by this check",
+    "assumptions": ["the first stream is the static (derive-built) schema family; subscription events are judged by the event machine of check C27 "
+                    "(stream SUB_CASE) and dynamic schemas by the dynamic executor model of check C02 on fault-injected worlds (stream DYN_CASE: data "
+                    "against the specification, data and errors against the model)",
                     "error locations are not compared (paths are)",
                     "when several faults occur the specification may report more errors than the implementation (siblings dropped by try_join_all): "
                     "inclusion is required, equality for a single fault"],
@@ -33,7 +51,8 @@ MANIFEST = {
     "text": ("Same Coq models as C01; the verdict compares data AND error paths with the specification's CompleteValue/null-propagation rules for worlds "
              "with injected faults at every wrapping. Four deviations are recorded findings (resolver error at a nullable field nulls the parent; list "
              "item error path overwritten; interface-dispatched error without path; per-occurrence resolution keeps a partial object). "
-             "Partial: static schemas and queries/mutations only; dynamic flavour and subscription events are not claimed here."),
+             "Subscription events: the streams of check C27 (each response = its own event's data and errors, under sequential and interleaved schedules) "
+             "and dynamic schemas: the fault-injected stream of check C02 are evaluated here as well, with their own known classes listed under C03."),
     "note": "trusted: Coq kernel, harness, sampled agreement model vs code; no axioms",
 }
 
